@@ -89,6 +89,8 @@ func (b *Built) build(e *Expr, h *Hooks) parsley.Parser {
 			p = text.RightTrim(ks[0], text.WsMode(e.C))
 		case OpLTrim:
 			p = text.LeftTrim(ks[0], text.WsMode(e.C))
+		case OpSeqRetSingle:
+			p = combinator.SeqOf(ks...).HandleResult(combinator.ReturnSingle())
 		case OpSingle:
 			p = combinator.Single(ks[0])
 		case OpSuppress:
